@@ -439,9 +439,17 @@ def gen_ops(rng, cfg):
     kinds = ['bytes', 'zeros', 'str', 'dict', 'list', 'int', 'empty']
     ncorrupt = 0
     nrec = 0
+    nburst = 0
     for _ in range(cfg['nops']):
         r = rng.random()
-        if r < 0.3:
+        if r < 0.012 and nburst < 2 and cfg['cap'] >= 64:
+            # a burst of small messages that reach the receiver in one read (hundreds of complete frames in the buffer)
+            nburst += 1
+            d = rng.randrange(2) if cfg['bidir'] else 0
+            ops.append(['burst', d, rng.choice([65, 100, 129, 300]), rng.getrandbits(30)])
+            ops.append(['dlv', d, 0])
+            ops.append(['poll', 1 - d])
+        elif r < 0.3:
             d = rng.randrange(2) if cfg['bidir'] else 0
             size = rng.choice([0, 1, rng.randrange(0, 50), rng.randrange(0, cfg['maxsize'] + 1)])
             ops.append(['send', d, rng.choice(kinds), size, rng.getrandbits(30)])
@@ -479,6 +487,10 @@ def execute(seed, cfg, ops):
                 out = F.send(op[1], make_msg(r, op[3], op[2]))
             elif k == 'poll':
                 F.poll(op[1])
+            elif k == 'burst':
+                r = random.Random(op[3])
+                for i in range(op[2]):
+                    out = F.send(op[1], make_msg(r, i % 7, r.choice(['int', 'bytes', 'empty', 'str'])))
             elif k == 'dlv':
                 out = F.deliver(op[1], op[2])
             elif k == 'corrupt':
